@@ -100,7 +100,8 @@ Next ==
         /\ dead' = IF isInit THEN (V \ NonFatal # {}) ELSE dead \/ (V \ NonFatal # {})
         /\ rep' = IF skip THEN [kind |-> "skipped", sc |-> r.sc, k |-> r.k]
                   ELSE IF V # {} THEN [kind |-> "viol", sc |-> r.sc, k |-> r.k, kinds |-> V, line |-> l]
-                  ELSE IF ~SameD(DOf(o), st[2]) \/ r.refreshes # st[3]
+                  \* (no unique prediction while a host id is reported twice)
+                  ELSE IF ~g1.dup /\ (~SameD(DOf(o), st[2]) \/ r.refreshes # st[3])
                     THEN [kind |-> "drift", sc |-> r.sc, k |-> r.k, line |-> l, op |-> r.op,
                           expected |-> [hosts |-> st[2].hosts, byaddr |-> st[2].byAddr, pool |-> st[2].pool,
                                         pol |-> st[2].pol, down |-> st[2].down, refreshes |-> st[3]]]
